@@ -41,6 +41,11 @@ func c14Encode(c *fw.Ctx, cs *c14Case, wantCBE, wantCTE bool) {
 			c.Inc("skipped.cte.encode-failed")
 		} else {
 			cs.cte = doc
+			if c.Rng.Intn(3) == 0 {
+				// trailing white space belongs to the document and to its size
+				cs.cte = append(append([]byte{}, doc...), []string{"\n", " ", "\n\n", "  \t\n", "\r\n"}[c.Rng.Intn(5)]...)
+				c.Inc("feature.cte-trailing-whitespace")
+			}
 		}
 	}
 }
@@ -284,5 +289,9 @@ var c14HandDocs = []c14HandDoc{
 	{cte: "c0\n/* hand-written */ @rt<\"a\" \"b\">\n{\n    \"k\\n\\[1f600]\" = @u8x[01 02 03] // line comment\n    &m1:\"marked\" = $m1\n    1 = @rt{1 2}\n" +
 		"    2 = (1 (2) (3))\n    3 = @(\"a\" null \"b\")\n    4 = @\"http://x.y\"\n    5 = @application/x-sh[aa bb cc]\n    6 = @b[101100011]\n}"},
 	// header, 2 x padding, list [ 1 "ab" padding u8-array in two chunks (01 02 | 03 04) &x:true $x {} ]
+	// top-level numbers: every prefix that still has a digit is a well-formed document too
+	{cte: "c0 12345"},
+	{cte: "c0\n-123456789.25"},
+	{cte: "c0 [1 2 3]\n \n"},
 	{cbe: []byte{0x81, 0x00, 0x95, 0x95, 0x9a, 0x01, 0x82, 0x61, 0x62, 0x95, 0x93, 0x05, 0x01, 0x02, 0x04, 0x03, 0x04, 0x7f, 0xf0, 0x01, 0x78, 0x79, 0x77, 0x01, 0x78, 0x99, 0x9b, 0x9b}},
 }
